@@ -9,12 +9,16 @@ T = cc.TLS
 
 
 JSONX = os.path.join(os.path.dirname(os.path.abspath(__file__)), "schemas", "jsonx.tl")
+JSONX2 = os.path.join(os.path.dirname(os.path.abspath(__file__)), "schemas", "jsonx2.tl2")
 
 
 def corpus(c):
     s = [cc.Schema("cases", [T + "/cases.tl"], tl2="*", sanity=True),
          cc.Schema("casesns", [T + "/cases.tl"], tl2="", sanity=True),
-         cc.Schema("jsonx", [JSONX], tl2="*", sanity=True)]
+         cc.Schema("jsonx", [JSONX], tl2="*", sanity=True),
+         cc.Schema("cases2", [T + "/cases.tl2"], tl2="*", sanity=True),
+         cc.Schema("jsonx2", [JSONX2], tl2="*", sanity=True)]
+    s[-1].origin_tl2 = s[-2].origin_tl2 = True     # TL2-origin schemas: no TL1 form, values travel as JSON (FillRandom)
     if c.thorough:
         s += [cc.Schema("jsonxns", [JSONX], tl2="", sanity=True),
               cc.Schema("gold", [T + "/goldmaster.tl", T + "/goldmaster2.tl", T + "/goldmaster3.tl"], tl2="*", sanity=True, split=True),
@@ -518,6 +522,7 @@ class Rewriter:
             na = [self.natarg(a, fvals, params) for a in f["natArgs"]]
             bit = mask_bit(f)
             local = bool(f.get("mask")) and f["mask"]["k"] == "field"
+            opt2 = not f.get("mask") and f.get("tl2bit") is not None     # TL2-origin optional field / bit: presence is the hidden bit only
             if f.get("isBit"):
                 if n is None:
                     out.append(("true_field_explicit_false", "same", added(key, ("f",))))
@@ -525,6 +530,8 @@ class Rewriter:
                         # masked_field_sets_local_bits: "x":true ≡ "x":true with the bits written out
                         t1 = added(key, ("t",))
                         out.append(("true_field_sets_bits", ("eq", self.set_bits(fields, t1, f)), t1))
+                    elif opt2:
+                        out.append(("tl2_bit_set", "any", added(key, ("t",))))
                     else:
                         out.append(("true_field_external_mask_zero", "any" if has_tl2 else "rej", added(key, ("t",))))
                 else:
@@ -533,12 +540,17 @@ class Rewriter:
                     if local:
                         out += self.drop_implied(s, fields, ms, pos, fvals, f["mask"]["v"])
                         out.append(("true_field_dropped_bit_explicit", "same", without(n)))
+                    elif opt2:
+                        out.append(("tl2_bit_dropped", "any", without(n)))
                     else:
                         out.append(("true_field_dropped_external_bit_set", "same", without(n)))
                 continue
             if n is None:
                 ej = self.empty_json(f["ty"], na)
-                if not f.get("mask"):
+                if opt2:
+                    if ej is not None:
+                        out.append(("tl2_optional_set", "any", added(key, ej)))
+                elif not f.get("mask"):
                     if self.is_true_type(f["ty"]):
                         out.append(("unmasked_true_type_explicit", "same", added(key, ("o", []))))
                     elif ej is not None:
@@ -981,3 +993,102 @@ def mask_probe_lines(sc, rw, items):
             tree = rw.set_bits(fields, ("o", []), f)
             res[rj_line(sc, inst, 0, tree)] = (inst["idx"], f["name"])
     return res
+
+
+# ------------------------------------------------------------------ TL2-origin schemas: values travel as JSON written by FillRandom'd objects
+def dump_of_text(text):
+    """canonical tree dump of a JSON text (Python's json as an independent tokenizer; member order/duplicates and number text kept)"""
+    import json
+
+    def conv(x):
+        if x is None:
+            return "z"
+        if x is True:
+            return "t"
+        if x is False:
+            return "f"
+        if isinstance(x, _Num):
+            return "n" + x.t
+        if isinstance(x, str):
+            return "s" + x.encode("utf-8", "surrogatepass").hex()
+        if isinstance(x, _Obj):
+            return "{" + ",".join(k.encode("utf-8", "surrogatepass").hex() + ":" + conv(v) for k, v in x.ms) + "}"
+        if isinstance(x, list):
+            return "[" + ",".join(conv(e) for e in x) + "]"
+        raise ValueError(type(x))
+
+    v = json.loads(text.decode("utf-8", "surrogateescape"), object_pairs_hook=_Obj, parse_int=_Num, parse_float=_Num, parse_constant=_Num)
+    return conv(v)
+
+
+class _Num:
+    def __init__(self, t):
+        self.t = t
+
+
+class _Obj:
+    def __init__(self, ms):
+        self.ms = ms
+
+
+def tl2_origin_values(c, sc, items, rng, per):
+    """phase A (implementation only): FillRandom → JSON text + TL2 bytes per factory item"""
+    from vlib.core import run_lines
+    lines = []
+    for inst, it in items:
+        for _ in range(per):
+            lines.append("codec.jr %s %d %s %d" % (sc.sid, inst["idx"], inst["tlname"], rng.below(2 ** 48)))
+    lines = sorted(set(lines))
+    out = run_lines(sc.impl, lines, prefix=[sc.desc_line()])
+    vals = []
+    for l, a in zip(lines, out):
+        f = l.split(" ")
+        if a == "panic":
+            # FillRandom of a TL2-origin recursive optional field dereferences the nil pointer (generated FillRandom: C18's subject,
+            # not a JSON defect): no value to transport
+            c.count("jr:fillrandom-panic:" + f[3])
+            continue
+        if not a.startswith("ok "):
+            continue
+        d = parse_out(a)
+        text = bytes.fromhex(d["t"]) if d["t"] != "-" else b""
+        if d.get("valid") != "1":
+            c.oracle_fail(l, "JSON written by generated code is not syntactically valid JSON", l)
+            continue
+        vals.append({"inst": int(f[2]), "name": f[3], "text": text, "w2": d.get("w2"), "src": l})
+    return vals
+
+
+def tl2_origin_roundtrip(c, sc, model, vals):
+    """phase B (tie): the text is read by both sides and re-written; phase C (implementation only): TL2 bytes after the JSON round trip.
+    Returns pseudo phase-1 results [(xj-like line, 'ok j=<dump> valid=1 rt=ok')] for the C06 rewriter."""
+    from vlib.core import run_lines
+    pre = [sc.desc_line()]
+    by_line = {}
+    for v in vals:
+        by_line["codec.rj %s %d %s 0 %s" % (sc.sid, v["inst"], v["name"], v["text"].hex() or "-")] = v
+    res = c.tie("rj2:" + sc.sid, sorted(by_line), sc.impl, model, prefix=pre)
+    pseudo = []
+    for l, a, _ in res:
+        v = by_line[l]
+        try:
+            want = dump_of_text(v["text"])
+        except Exception:
+            c.oracle_fail(v["src"], "JSON written by generated code cannot be parsed", v["src"])
+            continue
+        if a == "panic":
+            c.oracle_fail(l, "generated code panics reading back / re-writing its own JSON", l)
+        elif not a.startswith("ok "):
+            c.oracle_fail(l, "JSON written by generated code is rejected by its own reader", l)
+        elif parse_out(a).get("j") != want:
+            c.oracle_fail(l, "JSON round trip changes the JSON encoding", l)
+        else:
+            pseudo.append(("codec.xj %s %d %s 1 -" % (sc.sid, v["inst"], v["name"]), "ok j=%s valid=1 rt=ok" % want, None))
+    l2 = {"codec.j2 %s %d %s %s" % (sc.sid, v["inst"], v["name"], v["text"].hex() or "-"): v for v in vals}
+    keys = sorted(l2)
+    for l, a in zip(keys, run_lines(sc.impl, keys, prefix=pre)):
+        v = l2[l]
+        if a.startswith("ok ") and parse_out(a).get("w2") != v["w2"]:
+            c.oracle_fail(l, "JSON round trip changes the TL2 encoding", l)
+        c.count("tl2origin:" + a.split(" ")[0])
+    return pseudo
